@@ -460,7 +460,7 @@ theorem nbody0_ok (file pool0 : ByteArray) (tol : Bool) (st : NSt) (B O size : N
 /-- the chunk at `(B, O)` does not decode (`inc`: it is incomplete, otherwise its checksum is wrong): end of the log
     under the model's three rules, `ErrInvalidCRC` otherwise -/
 theorem nbody0_bad (file pool0 : ByteArray) (tol inc : Bool) (st : NSt) (B O size : Nat) (e : String)
-    (hB : st.reader_blockID = B) (hO : st.reader_offset = O) (hbs : st.reader_blockBuf.size = 32768)
+    (hB : st.reader_blockID = B) (hO : st.reader_offset = O)
     (hfs : st.fileSize = (file.size : Int)) (hp0 : pool0.size = 32768)
     (hB32 : B < 2^32) (hf : file.size < 2^47) (h1 : B * 32768 < file.size)
     (hsz : size = min (file.size - B * 32768) 32768) (h2 : O < size)
@@ -484,7 +484,7 @@ theorem nbody0_bad (file pool0 : ByteArray) (tol inc : Bool) (st : NSt) (B O siz
     intro i j k b hi hj hb
     rw [hi, hj, ← hb]
     exact trans_zeroUntilEnd_eq file pool0 k hp0 (by omega)
-  clear hp0 hbs
+  clear hp0
   have hL : st.reader_offset + 7 ≤ size →
       le16 ((putAt st.reader_blockBuf 0 (file.extract (st.reader_blockID * 32768)
         (st.reader_blockID * 32768 + (size - 0)))).extract (st.reader_offset + 4) (st.reader_offset + 6))
@@ -535,7 +535,7 @@ theorem nbody0_bad (file pool0 : ByteArray) (tol inc : Bool) (st : NSt) (B O siz
           cases inc <;> simp only [Bool.false_eq_true, ↓reduceIte] at he <;> subst he
           · ndd
           · ndd
-            simp only [true_and, not_true_eq_false, false_and, not_false_eq_true] at hE
+            simp only [true_and] at hE
             omega)] at hX
         rw [if_pos (by ndd)] at hX
         -- the extent the chunk claims: `end` = the model's `claimedEnd`
@@ -545,7 +545,7 @@ theorem nbody0_bad (file pool0 : ByteArray) (tol inc : Bool) (st : NSt) (B O siz
           rw [if_pos (by ndd; omega)] at hX
           rw [end_eq _ (ce : Int) (by
             simp (disch := omega) only [hfs, datafile.blockSize, datafile.chunkHeaderSize, i64_of_range,
-              Int.toNat_natCast, Nat.mod_eq_of_lt, hsize.h, hoff.h, hL h7]
+              Nat.mod_eq_of_lt, hsize.h, hoff.h, hL h7]
             omega)] at hX
           toltail
         · rw [if_neg h7] at hce
@@ -557,5 +557,294 @@ theorem nbody0_bad (file pool0 : ByteArray) (tol inc : Bool) (st : NSt) (B O siz
     rw [if_pos (Or.inr (Or.inl rfl))]
     exact hX.symm
 
+
+/-- **one iteration of the translated loop = the model's `chunkSeq`** (both reader modes) -/
+theorem nbody0_spec (file pool0 : ByteArray) (tol : Bool) (st : NSt) (B O : Nat)
+    (hB : st.reader_blockID = B) (hO : st.reader_offset = O) (hbs : st.reader_blockBuf.size = 32768)
+    (hfs : st.fileSize = (file.size : Int)) (hp0 : pool0.size = 32768)
+    (hB32 : B < 2^32) (hf : file.size / BS + 1 < 2^32) :
+    match chunkSeq Chunk.crcCodec tol file B O with
+    | .eof => datafile.next.body0 file crcNat pool0 tol st
+        = .ret ((ByteArray.empty, none, datafile.endOfLog tol st.cnt), B, O, st.reader_validEnd)
+    | .err => datafile.next.body0 file crcNat pool0 tol st
+        = .ret ((ByteArray.empty, none, some "ErrInvalidCRC"), B, O, st.reader_validEnd)
+    | .ok (p, t) =>
+      if @Eq Nat t 0 ∨ @Eq Nat t 3 then
+        ∃ st', datafile.next.body0 file crcNat pool0 tol st = .brk st' ∧ st'.res = st.res ++ p ∧
+          st'.cnt = (st.cnt + 1) % 2^32 ∧ st'.reader_blockID = rnormB B (O + H + p.size) ∧
+          st'.reader_offset = rnormO (O + H + p.size) ∧
+          st'.reader_validEnd = ((B * BS + (O + H + p.size) : Nat) : Int) ∧ st'.pos = st.pos
+      else
+        ∃ st', datafile.next.body0 file crcNat pool0 tol st = .next st' ∧ st'.res = st.res ++ p ∧
+          st'.cnt = (st.cnt + 1) % 2^32 ∧ st'.reader_blockID = B + 1 ∧ st'.reader_offset = 0 ∧
+          st'.reader_blockBuf.size = 32768 ∧ st'.fileSize = (file.size : Int) ∧
+          st'.reader_validEnd = st.reader_validEnd ∧ st'.pos = st.pos := by
+  rw [hBS] at hf
+  have hf' : file.size < 2^47 := by omega
+  generalize hr : chunkSeq Chunk.crcCodec tol file B O = r
+  unfold chunkSeq at hr
+  simp only [] at hr
+  split at hr
+  · rename_i h1
+    rw [hBS] at h1
+    subst hr
+    exact nbody0_eof1 file pool0 tol st B O hB hO hfs hB32 h1
+  · rename_i h1
+    split at hr
+    · rename_i h2
+      rw [hBS] at h1 h2
+      subst hr
+      exact nbody0_eof2 file pool0 tol st B O hB hO hfs hB32 hf' (by omega) h2
+    · rename_i h2
+      rw [hBS] at h1 h2 hr
+      have hcd : Chunk.crcCodec.dec = Chunk.dec := rfl
+      rw [hcd] at hr
+      have hdec := trans_DecodeChunk_eq (file.extract (B * 32768 + O) (B * 32768 + min (file.size - B * 32768) 32768))
+      cases hd : Chunk.dec (file.extract (B * 32768 + O) (B * 32768 + min (file.size - B * 32768) 32768)) with
+      | ok p t =>
+        rw [hd] at hr
+        simp only [] at hr
+        subst hr
+        exact nbody0_ok file pool0 tol st B O _ p t hB hO hbs hfs (by omega) hf' (by omega) rfl (by omega) hd
+      | incomplete =>
+        rw [hd] at hr hdec
+        simp only [] at hr
+        have hb := nbody0_bad file pool0 tol true st B O _ "ErrIncompleteChunk" hB hO hfs hp0 hB32 hf' (by omega)
+          rfl (by omega) rfl hdec
+        rw [hb]
+        subst hr
+        by_cases hc : (tol = true ∧ B * 32768 + min (file.size - B * 32768) 32768 = file.size) ∨
+            allZeroFrom file (B * 32768 + O) = true ∨
+            tornZero tol file (B * 32768) O (min (file.size - B * 32768) 32768) = true
+        · rw [if_pos hc, if_pos (by rcases hc with h | h | h; exact Or.inl ⟨rfl, h⟩; exact Or.inr (Or.inl h); exact Or.inr (Or.inr h))]
+        · rw [if_neg hc, if_neg (by
+            intro h; apply hc
+            rcases h with h | h | h
+            · exact Or.inl h.2
+            · exact Or.inr (Or.inl h)
+            · exact Or.inr (Or.inr h))]
+      | badCrc =>
+        rw [hd] at hr hdec
+        simp only [] at hr
+        have hb := nbody0_bad file pool0 tol false st B O _ "ErrInvalidCRC" hB hO hfs hp0 hB32 hf' (by omega)
+          rfl (by omega) rfl hdec
+        rw [hb]
+        subst hr
+        by_cases hc : allZeroFrom file (B * 32768 + O) = true ∨
+            tornZero tol file (B * 32768) O (min (file.size - B * 32768) 32768) = true
+        · rw [if_pos hc, if_pos (Or.inr hc)]
+        · rw [if_neg hc, if_neg (by
+            intro h; apply hc
+            rcases h with h | h
+            · exact absurd h.1 (by decide)
+            · exact h)]
+
+
+/-! ### `endOfLog`, the loop, the function -/
+
+/-- **`(*DataReader).endOfLog`**: the end of the log inside a record (`cnt > 0` chunks already consumed) is an
+    error for a reader that does not tolerate a torn tail -/
+theorem trans_endOfLog_eq (tol : Bool) (cnt : Nat) :
+    datafile.endOfLog tol cnt = if cnt > 0 ∧ tol = false then some "ErrInvalidCRC" else some "io.EOF" := by
+  cases tol <;> simp [datafile.endOfLog]
+
+theorem endOfLog_zero (tol : Bool) : datafile.endOfLog tol 0 = some "io.EOF" := by
+  rw [trans_endOfLog_eq]; simp
+theorem endOfLog_tol (c : Nat) : datafile.endOfLog true c = some "io.EOF" := by
+  rw [trans_endOfLog_eq]; simp
+theorem endOfLog_pos (c : Nat) (h : 0 < c) : datafile.endOfLog false c = some "ErrInvalidCRC" := by
+  rw [trans_endOfLog_eq]; simp [h]
+
+theorem chunkSeq_ok_lt {C : Codec} {tol : Bool} {f : ByteArray} {B O : Nat} {x : ByteArray × CT}
+    (h : chunkSeq C tol f B O = .ok x) : B * BS < f.size := by
+  unfold chunkSeq at h
+  simp only [] at h
+  split at h
+  · cases h
+  · omega
+
+/-- how the result of the translated loop, entered in state `st`, corresponds to a result of the model's
+    `nextAt`: on success the state the loop is left in (`n` = the bytes occupied = 7 per chunk + payload);
+    the end of the log is reported through `endOfLog` with the chunk count at loop entry, and `validEnd` is
+    untouched unless a record was completed -/
+def NLoopRel (tol : Bool) (st : NSt) (res : Option (NSt ⊕ NRes)) : Out (ByteArray × Nat × Nat × Nat) → Prop
+  | .ok (q, n, b', o') => ∃ st' k, res = some (.inl st') ∧ st'.res = st.res ++ q ∧ n = 7 * k + q.size ∧
+      st'.cnt = (st.cnt + k) % 2^32 ∧ st'.reader_blockID = rnormB b' o' ∧ st'.reader_offset = rnormO o' ∧
+      st'.reader_validEnd = ((b' * BS + o' : Nat) : Int) ∧ st'.pos = st.pos
+  | .eof => ∃ b o, res = some (.inr ((ByteArray.empty, none, datafile.endOfLog tol st.cnt), b, o, st.reader_validEnd))
+  | .err => ∃ b o, res = some (.inr ((ByteArray.empty, none, some "ErrInvalidCRC"), b, o, st.reader_validEnd))
+
+theorem nloop0_spec (file pool0 : ByteArray) (tol : Bool) (hp0 : pool0.size = 32768) (hf : file.size / BS + 1 < 2^32) :
+    ∀ (fuel : Nat) (st : NSt) (B O : Nat), st.reader_blockID = B → st.reader_offset = O →
+      st.reader_blockBuf.size = 32768 → st.fileSize = (file.size : Int) → B < 2^32 → st.cnt ≤ B →
+      (file.size + BS - 1) / BS + 1 ≤ B + fuel → 1 ≤ fuel →
+      NLoopRel tol st (datafile.next.loop0 file crcNat pool0 tol fuel st) (nextAt Chunk.crcCodec tol file B O fuel) := by
+  have hBS := hBS
+  intro fuel
+  induction fuel with
+  | zero => intro st B O _ _ _ _ _ _ _ h; omega
+  | succ fuel ih =>
+    intro st B O hB hO hbs hfs hB32 hcnt hfuel _
+    have hb := nbody0_spec file pool0 tol st B O hB hO hbs hfs hp0 hB32 hf
+    rw [nextAt, datafile.next.loop0]
+    generalize hc : chunkSeq Chunk.crcCodec tol file B O = c at hb
+    cases c with
+    | eof =>
+      simp only [] at hb ⊢
+      rw [hb]
+      exact ⟨_, _, rfl⟩
+    | err =>
+      simp only [] at hb ⊢
+      rw [hb]
+      exact ⟨_, _, rfl⟩
+    | ok x =>
+      obtain ⟨p, t⟩ := x
+      have hlt := chunkSeq_ok_lt hc
+      rw [hBS] at hlt hf hfuel
+      simp only [] at hb ⊢
+      by_cases ht : @Eq Nat t 0 ∨ @Eq Nat t 3
+      · rw [if_pos ht] at hb ⊢
+        obtain ⟨st', e1, e2, e3, e4, e5, e6, e7⟩ := hb
+        rw [e1]
+        refine ⟨st', 1, rfl, e2, ?_, e3, e4, e5, e6, e7⟩
+        rw [hH]
+      · rw [if_neg ht] at hb ⊢
+        obtain ⟨st', e1, e2, e3, e4, e5, e6, e7, e8, e9⟩ := hb
+        rw [e1]
+        simp only [Ctl.step]
+        have e3' : st'.cnt = st.cnt + 1 := by rw [e3]; omega
+        have := ih st' (B + 1) 0 e4 e5 e6 e7 (by omega) (by omega) (by rw [hBS]; omega) (by omega)
+        generalize nextAt Chunk.crcCodec tol file (B + 1) 0 fuel = r at this ⊢
+        cases r with
+        | ok y =>
+          obtain ⟨q, n, b', o'⟩ := y
+          obtain ⟨st'', k, f1, f2, f3, f4, f5, f6, f7, f8⟩ := this
+          refine ⟨st'', k + 1, f1, ?_, ?_, ?_, f5, f6, f7, f8.trans e9⟩
+          · rw [f2, e2, ByteArray.append_assoc]
+          · rw [f3, hH, ByteArray.size_append]; omega
+          · rw [f4, e3']; omega
+        | eof =>
+          obtain ⟨b, o, f1⟩ := this
+          rw [f1, e8, e3']
+          cases tol
+          · exact ⟨b, o, by rw [endOfLog_pos _ (by omega)]⟩
+          · exact ⟨b, o, by rw [endOfLog_tol, endOfLog_tol]⟩
+        | err =>
+          obtain ⟨b, o, f1⟩ := this
+          rw [f1, e8]
+          exact ⟨b, o, rfl⟩
+
+
+/-- elimination form of `nloop0_spec`: whatever follows the loop (`K`) and whatever state it is entered in are
+    found by unification with `hA` (the proofs below never write the generated initial state down) -/
+theorem nloop0_after (file pool0 : ByteArray) (tol : Bool) (hp0 : pool0.size = 32768) (hf : file.size / BS + 1 < 2^32)
+    {fuel : Nat} {st : NSt} {K : NSt → Option NRes} {A : Option NRes}
+    (hA : Ctl.after (datafile.next.loop0 file crcNat pool0 tol fuel st) K = A) (B O : Nat)
+    (hB : st.reader_blockID = B) (hO : st.reader_offset = O) (hbs : st.reader_blockBuf.size = 32768)
+    (hfs : st.fileSize = (file.size : Int)) (hB32 : B < 2^32) (hcnt : st.cnt ≤ B)
+    (hfuel : (file.size + BS - 1) / BS + 1 ≤ B + fuel) (h1 : 1 ≤ fuel) :
+    ∃ res, NLoopRel tol st res (nextAt Chunk.crcCodec tol file B O fuel) ∧ Ctl.after res K = A :=
+  ⟨_, nloop0_spec file pool0 tol hp0 hf fuel st B O hB hO hbs hfs hB32 hcnt hfuel h1, hA⟩
+
+/-- **`(*DataReader).next` = the model's `nextAt`** followed by the reader's skip rule `rnormB/rnormO`, for both
+    values of `tolerateTornTail`, every file whose block count fits `uint32` with room for one increment, every
+    content of the reader's block buffer and of the pooled buffer `zeroUntilEnd` uses, every reader state
+    `(blockID, offset, validEnd)` and the writer state `(lastBlockID, lastBlockSize) = (size / BS, size % BS)` of
+    the file.  On success: the payload, the position `(Fid, blockID, offset, Size)` (`Size` is a `uint32`: the
+    model's size modulo 2³²), the new reader state and `validEnd` = the end of the record; `io.EOF` /
+    `ErrInvalidCRC` exactly when the model says end of log / error, with `validEnd` unchanged (the reader's
+    block id and offset are then unspecified by the model). -/
+theorem trans_next_eq (file buf0 pool0 : ByteArray) (tol : Bool) (fid blockID offset : Nat) (validEnd : Int)
+    (hbuf : buf0.size = 32768) (hpool : pool0.size = 32768) (hfile : file.size / BS + 1 < 2^32)
+    (hblk : blockID < 2^32) :
+    match nextAt Chunk.crcCodec tol file blockID offset (file.size + 1) with
+    | .ok (d, sz, b', o') =>
+      datafile.next (file := file) (crc32_ChecksumIEEE := crcNat) (getBuf_block := pool0)
+          (reader_dataFile_ID := fid) (reader_dataFile_lastBlockID := file.size / BS)
+          (reader_dataFile_lastBlockSize := file.size % BS) (reader_blockID := blockID) (reader_offset := offset)
+          (reader_blockBuf := buf0) (reader_validEnd := validEnd) (reader_tolerateTornTail := tol)
+        = some ((d, some { Fid := fid, BlockID := blockID, Offset := offset, Size := sz % 2^32 }, none),
+                rnormB b' o', rnormO o', ((b' * BS + o' : Nat) : Int))
+    | .eof => ∃ b o,
+      datafile.next (file := file) (crc32_ChecksumIEEE := crcNat) (getBuf_block := pool0)
+          (reader_dataFile_ID := fid) (reader_dataFile_lastBlockID := file.size / BS)
+          (reader_dataFile_lastBlockSize := file.size % BS) (reader_blockID := blockID) (reader_offset := offset)
+          (reader_blockBuf := buf0) (reader_validEnd := validEnd) (reader_tolerateTornTail := tol)
+        = some ((ByteArray.empty, none, some "io.EOF"), b, o, validEnd)
+    | .err => ∃ b o,
+      datafile.next (file := file) (crc32_ChecksumIEEE := crcNat) (getBuf_block := pool0)
+          (reader_dataFile_ID := fid) (reader_dataFile_lastBlockID := file.size / BS)
+          (reader_dataFile_lastBlockSize := file.size % BS) (reader_blockID := blockID) (reader_offset := offset)
+          (reader_blockBuf := buf0) (reader_validEnd := validEnd) (reader_tolerateTornTail := tol)
+        = some ((ByteArray.empty, none, some "ErrInvalidCRC"), b, o, validEnd) := by
+  have hBS := hBS
+  have hsz := trans_Size_eq file.size (by omega)
+  simp only [datafile.next]
+  generalize hA : Ctl.after (datafile.next.loop0 _ _ _ _ _ _) _ = A
+  obtain ⟨res, hrel, hA'⟩ := nloop0_after file pool0 tol hpool hfile hA blockID offset rfl rfl hbuf hsz hblk
+    (Nat.zero_le _) (by rw [hBS]; omega) (by omega)
+  generalize nextAt Chunk.crcCodec tol file blockID offset (file.size + 1) = r at hrel ⊢
+  subst hA'
+  cases r with
+  | ok y =>
+    obtain ⟨d, sz, b', o'⟩ := y
+    obtain ⟨st', k, f1, f2, f3, f4, f5, f6, f7, f8⟩ := hrel
+    subst f1
+    simp only [ByteArray.empty_append] at f2 f4 f8
+    simp only [Ctl.after, f2, f5, f6, f7, f8, f4, f3, datafile.chunkHeaderSize]
+    have e : ((0 + k) % 2 ^ 32 * 7 % 2 ^ 32 + ((d.size : Int) % 2 ^ 32).toNat) % 2 ^ 32 = (7 * k + d.size) % 2 ^ 32 := by
+      omega
+    rw [e]
+  | eof =>
+    obtain ⟨b, o, f1⟩ := hrel
+    subst f1
+    exact ⟨b, o, by simp only [Ctl.after, endOfLog_zero]⟩
+  | err =>
+    obtain ⟨b, o, f1⟩ := hrel
+    subst f1
+    exact ⟨b, o, by simp only [Ctl.after]⟩
+
+
+/-- read-back through the translated sequential reader (with `Frame.nextAt_write`): a reader (of either kind)
+    that stands at the end of `f` returns, after a record `d` was appended (and whatever was appended later),
+    exactly `d`, the position the writer reported, and `validEnd` = the end of that record -/
+theorem trans_next_write (d f post buf0 pool0 : ByteArray) (tol : Bool) (fid : Nat) (validEnd : Int) (hd : 0 < d.size)
+    (hbuf : buf0.size = 32768) (hpool : pool0.size = 32768)
+    (hF : (appendRec Chunk.crcCodec f d ++ post).size / BS + 1 < 2^32) :
+    ∃ b o,
+      datafile.next (file := appendRec Chunk.crcCodec f d ++ post) (crc32_ChecksumIEEE := crcNat) (getBuf_block := pool0)
+          (reader_dataFile_ID := fid)
+          (reader_dataFile_lastBlockID := (appendRec Chunk.crcCodec f d ++ post).size / BS)
+          (reader_dataFile_lastBlockSize := (appendRec Chunk.crcCodec f d ++ post).size % BS)
+          (reader_blockID := endB f) (reader_offset := endO f)
+          (reader_blockBuf := buf0) (reader_validEnd := validEnd) (reader_tolerateTornTail := tol)
+        = some ((d, some { Fid := fid, BlockID := endB f, Offset := endO f,
+                           Size := (posOf Chunk.crcCodec 0 f.size d).size % 2^32 }, none),
+                b, o, ((appendRec Chunk.crcCodec f d).size : Int)) := by
+  have hBS := hBS
+  have hgt := size_appendRec_gt Chunk.crcCodec f d hd
+  have hm := mod_lt_BS f.size
+  have hle : f.size / BS ≤ (appendRec Chunk.crcCodec f d ++ post).size / BS := by
+    apply Nat.div_le_div_right
+    rw [ByteArray.size_append]; omega
+  have hblk : endB f < 2^32 := by
+    simp only [endB, normB]; split <;> omega
+  obtain ⟨b', o', hread, hend, _, _⟩ := nextAt_write Chunk.crcCodec tol d f post
+    ((appendRec Chunk.crcCodec f d ++ post).size + 1) hd (by rw [ByteArray.size_append]; omega)
+  have h := trans_next_eq (appendRec Chunk.crcCodec f d ++ post) buf0 pool0 tol fid (endB f) (endO f) validEnd
+    hbuf hpool hF hblk
+  rw [hread] at h
+  simp only [] at h
+  rw [hend] at h
+  exact ⟨_, _, h⟩
+
+/-- an empty file: `io.EOF`, `validEnd` untouched -/
+example : ∃ b o, datafile.next (file := ByteArray.empty) (crc32_ChecksumIEEE := crcNat) (getBuf_block := mkBytes 32768)
+    (reader_dataFile_ID := 1) (reader_dataFile_lastBlockID := 0) (reader_dataFile_lastBlockSize := 0)
+    (reader_blockID := 0) (reader_offset := 0) (reader_blockBuf := mkBytes 32768) (reader_validEnd := 5)
+    (reader_tolerateTornTail := false) = some ((ByteArray.empty, none, some "io.EOF"), b, o, 5) := by
+  have h := trans_next_eq ByteArray.empty (mkBytes 32768) (mkBytes 32768) false 1 0 0 5 (by simp) (by simp)
+    (by decide) (by decide)
+  exact h
 
 end XixiKV.TransEq
